@@ -176,6 +176,52 @@ namespace
     return dir + "/p" + std::to_string(getpid()) + "." + tag;
   }
 
+  /// independent decoder of the binary container format as documented at Container::_serialize (uncompressed):
+  /// 11 x u64 header | elements_size[] | elements byte sizes[] | indices_size[] | indices byte sizes[] | scalar_index[] |
+  /// (align DT2) scalar_dt[] | element arrays (DT2) | (align IT2) index arrays (IT2) | 16 bytes padding
+  template<typename DT2_, typename IT2_>
+  bool parse_buffer(const std::vector<char>& buf, VFP& f, std::string& err)
+  {
+    f = VFP();
+    if(buf.size() < 88 + 16 || (buf.size() % 1) != 0) { err = "buffer too small"; return false; }
+    auto u = [&](size_t k){ std::uint64_t v; memcpy(&v, buf.data() + 8 * k, 8); return v; };
+    if(u(0) != buf.size()) { err = "size field"; return false; }
+    const std::uint64_t ne = u(4), ni = u(5), nes = u(6), nis = u(7), nsi = u(8), nsd = u(9);
+    if(ne != nes || ni != nis) { err = "array counts differ from size counts"; return false; }
+    if(u(10) != 0) { err = "compression flag set"; return false; }
+    size_t k = 11;
+    if((k + 2 * nes + 2 * nis + nsi) * 8 > buf.size()) { err = "header exceeds buffer"; return false; }
+    std::vector<std::uint64_t> eb, ib;
+    for(std::uint64_t i = 0; i < nes; ++i) f.esz.push_back(u(k++));
+    for(std::uint64_t i = 0; i < nes; ++i) eb.push_back(u(k++));
+    for(std::uint64_t i = 0; i < nis; ++i) f.isz.push_back(u(k++));
+    for(std::uint64_t i = 0; i < nis; ++i) ib.push_back(u(k++));
+    for(std::uint64_t i = 0; i < nsi; ++i) f.sidx.push_back(u(k++));
+    for(std::uint64_t i = 0; i < nes; ++i) if(eb[i] != f.esz[i] * sizeof(DT2_)) { err = "byte size field of element array " + std::to_string(i) + " is " + std::to_string(eb[i]); return false; }
+    for(std::uint64_t i = 0; i < nis; ++i) if(ib[i] != f.isz[i] * sizeof(IT2_)) { err = "byte size field of index array " + std::to_string(i) + " is " + std::to_string(ib[i]); return false; }
+    size_t pos = k * 8; // aligned to 8, hence to DT2
+    auto need = [&](size_t n){ return pos + n + 16 <= buf.size() + 0; };
+    if(!need(nsd * sizeof(DT2_))) { err = "scalar_dt exceeds buffer"; return false; }
+    for(std::uint64_t i = 0; i < nsd; ++i) { DT2_ v; memcpy(&v, buf.data() + pos, sizeof(DT2_)); f.sdt.push_back(v); pos += sizeof(DT2_); }
+    for(std::uint64_t a = 0; a < nes; ++a)
+    {
+      if(!need(f.esz[a] * sizeof(DT2_))) { err = "element array exceeds buffer (incl. 16 bytes padding)"; return false; }
+      std::vector<long double> arr;
+      for(std::uint64_t i = 0; i < f.esz[a]; ++i) { DT2_ v; memcpy(&v, buf.data() + pos, sizeof(DT2_)); arr.push_back(v); pos += sizeof(DT2_); }
+      f.e.push_back(arr);
+    }
+    pos = ((pos + sizeof(IT2_) - 1) / sizeof(IT2_)) * sizeof(IT2_);
+    for(std::uint64_t a = 0; a < nis; ++a)
+    {
+      if(pos + f.isz[a] * sizeof(IT2_) > buf.size()) { err = "index array exceeds buffer"; return false; }
+      std::vector<std::uint64_t> arr;
+      for(std::uint64_t i = 0; i < f.isz[a]; ++i) { IT2_ v; memcpy(&v, buf.data() + pos, sizeof(IT2_)); arr.push_back(v); pos += sizeof(IT2_); }
+      f.i.push_back(arr);
+    }
+    if(pos > buf.size()) { err = "content exceeds buffer"; return false; }
+    return true;
+  }
+
   template<typename DT2_, typename IT2_, typename C_>
   void serialize_pair(verif::Ctx& c, const C_& x, const VFP& f0, const std::string& kind, const char* pair, bool may_equal)
   {
@@ -185,6 +231,11 @@ namespace
     bool hdr = buf.size() >= 88 && *reinterpret_cast<const std::uint64_t*>(buf.data()) == std::uint64_t(buf.size());
     c.check(hdr, key + " header size field", [&]{ return "buffer " + std::to_string(buf.size()); });
     if(!hdr) return;
+    {
+      VFP fb; std::string err;
+      bool ok = parse_buffer<DT2_, IT2_>(buf, fb, err);
+      c.check(ok && fb == f0, key + " buffer layout/content (independent decoder)", [&]{ return err + " decoded " + fb.str() + " expected " + f0.str(); });
+    }
     C_ y;
     y.template deserialize<DT2_, IT2_>(buf);
     VFP f1 = vfp(y);
